@@ -17,7 +17,7 @@ import (
 )
 
 func init() {
-	Register(&PropDef{ID: "C13", Run: c13, MaxSim: 6 * time.Hour, PanicIsViolation: true})
+	Register(&PropDef{ID: "C13", Run: c13, MaxSim: 6 * time.Hour, PanicIsViolation: true, SpinIsViolation: true})
 }
 
 var c13causes = []string{"peer-eof", "peer-reset", "read-error", "write-error", "short-write", "peer-stops-reading", "local-close", "handler-stop", "acceptor-listener-error", "undecodable-message"}
@@ -208,6 +208,7 @@ func c13(w *World) {
 	// ---- the cause ----
 	localInitiated := false
 	tCause := time.Now()
+	w.SpinKey = role + "/" + cause
 	switch cause {
 	case "peer-eof":
 		sc.P.C.CloseNow()
